@@ -1524,6 +1524,7 @@ void mmd_export_token_opendocument(DString * out, const char * source, token * t
 
 		case PAIR_BRACE:
 		case PAIR_BRACES:
+		case PAIR_RAW_FILTER:
 			mmd_export_token_tree_opendocument(out, source, t->child, scratch);
 			break;
 
@@ -2188,7 +2189,6 @@ parse_citation:
 
 			break;
 
-		case PAIR_RAW_FILTER:
 		case RAW_FILTER_LEFT:
 		case TEXT_BACKSLASH:
 		case TEXT_BRACE_LEFT:
